@@ -41,6 +41,14 @@ def _strip_ids(sn):
     return sn
 
 
+# ---------------------------------------------------------------- address taint (twin-universe comparisons)
+def address_taint_hook(node, v, rec):
+    """The text of a stringified function embeds a memory address; once a program has produced such a text (and may
+    reverse, slice or sort it) the outcomes of two universes differ for reasons that are no property's business."""
+    if type(v) is str and ' at 0x' in v:
+        rec.tainted = True
+
+
 # ---------------------------------------------------------------- C02: plain-data type walk of every node result
 def make_c02_value_hook(allowed_callable):
     def hook(node, v, rec):
